@@ -63,6 +63,10 @@ def run_c_program(seed, idx, tag, profile=None, ncalls=40, valgrind=False, keep=
     """Returns dict(status=ok|violation|skip|inconclusive, ...)."""
     prog, sc = make_program(seed, idx, profile, ncalls)
     d = toolrun.fresh_dir(toolrun.workdir(tag, "p%d" % idx))
+    return build_and_run_c(prog, sc, d, idx, valgrind=valgrind, keep=keep)
+
+
+def build_and_run_c(prog, sc, d, idx, valgrind=False, keep=False, c_prologue="", expected_extra=None):
     src = os.path.join(d, "lib.rs")
     open(src, "w").write(emit_rust.emit_program(prog, bodies=True))
     res = {"idx": idx, "dir": d, "prog": prog, "script": sc, "calls": sum(1 for s in sc.steps if s["kind"] == "call"),
@@ -77,7 +81,7 @@ def run_c_program(seed, idx, tag, profile=None, ncalls=40, valgrind=False, keep=
         res.update(status="skip", stage="tool:" + kind, detail=str(det)[:2000])
         return res
     drv = os.path.join(d, "driver.c")
-    open(drv, "w").write(emit_c.CEmitter(sc).emit())
+    open(drv, "w").write(emit_c.CEmitter(sc).emit(prologue=c_prologue))
     exe = os.path.join(d, "driver")
     rc, o, e = run(["gcc"] + CFLAGS + ["-I", os.path.join(d, "c"), drv, os.path.join(d, "libvfprog.a")] + LINK_LIBS + ["-o", exe], timeout=300)
     if rc != 0:
@@ -90,7 +94,7 @@ def run_c_program(seed, idx, tag, profile=None, ncalls=40, valgrind=False, keep=
     res["observed_events"] = len(got)
     res["observed_lines"] = got
     reps = sanitizer_blocks(err)
-    diff = first_diff(sc.expected + ["END"], got)
+    diff = first_diff((expected_extra or []) + sc.expected + ["END"], got)
     if rc == -999:
         res.update(status="inconclusive", stage="run", detail="watchdog")
     elif diff or reps or rc != 0:
